@@ -72,6 +72,9 @@ pub struct Interp<'a> {
     dir: ScratchDir,
     node: Option<Node>,
     client: Option<TcpClient>,
+    /// flavour "http": every other send / poll goes through the SDK's HTTP client (JSON) instead of TCP
+    http: Option<iggy::http::client::HttpClient>,
+    http_turn: std::cell::Cell<u32>,
     cfg: NodeCfg,
     parts: Vec<MPart>,
     clock: u64,
@@ -128,6 +131,8 @@ impl<'a> Interp<'a> {
             dir: ScratchDir::new("partlog"),
             node: None,
             client: None,
+            http: None,
+            http_turn: std::cell::Cell::new(0),
             cfg: case.cfg.clone(),
             parts: vec![],
             clock: node::CLOCK_BASE_US,
@@ -288,6 +293,10 @@ impl<'a> Interp<'a> {
 
     fn start_node(&mut self) -> Result<(), StartError> {
         node::set_clock(self.clock);
+        if self.p.flavour == "http" {
+            self.cfg.http = true;
+            self.cfg.jwt_never_expire = true; // the JWT library checks `exp` against the real clock, the server's is frozen
+        }
         let n = Node::start(&self.cfg, &self.dir.path)?;
         self.node = Some(n);
         Ok(())
@@ -297,6 +306,16 @@ impl<'a> Interp<'a> {
         if let Some(c) = self.client.take() {
             let n = self.node();
             let _ = n.block_on(async { iggy::client::Client::shutdown(&c).await });
+        }
+        self.http = None;
+        if self.p.flavour == "http" {
+            match self.node().http_root() {
+                Ok(h) => self.http = Some(h),
+                Err(e) => {
+                    let prop = self.focus().to_string();
+                    return Err(self.fail(&prop, "cannot-connect", format!("root login over HTTP failed: {e}")));
+                }
+            }
         }
         match self.node().tcp_root() {
             Ok(c) => {
@@ -356,9 +375,23 @@ impl<'a> Interp<'a> {
 
     // ------------------------------------------------------------ raw operations
 
+    /// flavour "http": true on every other call
+    fn via_http(&self) -> bool {
+        if self.http.is_none() {
+            return false;
+        }
+        let t = self.http_turn.get();
+        self.http_turn.set(t + 1);
+        t % 2 == 0
+    }
+
     fn raw_poll(&self, pid: u32, strat: &PollingStrategy, count: u32, consumer: u32, auto: bool) -> Result<PolledMessages, IggyError> {
         let c = Consumer::new(Identifier::numeric(consumer).unwrap());
         let n = self.node();
+        if self.via_http() {
+            let h = self.http.as_ref().unwrap();
+            return n.block_on(async { h.poll_messages(&sid(), &tid(), Some(pid), &c, strat, count, auto).await });
+        }
         n.block_on(async { self.cl().poll_messages(&sid(), &tid(), Some(pid), &c, strat, count, auto).await })
     }
 
